@@ -2028,6 +2028,7 @@ class CreateQueryBuilder:
         if self._as_select:
             raise AttributeError("'Query' object already has attribute as_select")
 
+        self._columns = list(self._columns)
         for column in columns:
             if isinstance(column, str):
                 column = Column(column)
@@ -2054,7 +2055,7 @@ class CreateQueryBuilder:
         :return:
             CreateQueryBuilder.
         """
-        self._period_fors.append(PeriodFor(name, start_column, end_column))
+        self._period_fors = [*self._period_fors, PeriodFor(name, start_column, end_column)]
 
     @builder
     def unique(self, *columns: str | Column) -> "Self":  # type:ignore[return]
@@ -2069,9 +2070,10 @@ class CreateQueryBuilder:
         :return:
             CreateQueryBuilder.
         """
-        self._uniques.append(
-            [(column if isinstance(column, Column) else Column(column)) for column in columns]
-        )
+        self._uniques = [
+            *self._uniques,
+            [(column if isinstance(column, Column) else Column(column)) for column in columns],
+        ]
 
     @builder
     def primary_key(self, *columns: str | Column) -> "Self":  # type:ignore[return]
